@@ -52,7 +52,7 @@ pub fn run(obligation: &str) -> i32 {
     if ["C02.format_member_or_option", "C02.format_sequence_member", "C02.format_choice_option", "C02.boxed_type", "C02.format_default_methods"].iter().any(|p| obligation.starts_with(p)) { gen_members(&mut rep); gen_default_methods(&mut rep); return rep.finish("GEN_members"); }
     if obligation.starts_with("C14.generate_enumerated") || obligation.starts_with("C14.enumerated_template") { gen_blocks(&mut rep); return rep.finish("GEN_blocks"); }
     if obligation.starts_with("C14.format_enum_members") || obligation.starts_with("C05.format_enum_members") { gen_enum_members(&mut rep); return rep.finish("GEN_enum_members"); }
-    if ["C05.generate_", "C03.generate_", "C05.member_extension", "C05.option_extension", "C02.generate_sequence_or_set_set_annotation", "C02.generate_sequence_or_set_assembly", "C02.generate_choice_assembly", "C02.sequence_or_set_template", "C02.choice_template", "C02.sequence_or_set_of_template", "C03.common_annotations", "C04.generate_collection_annotations", "C02.generate_collection_member_type"].iter().any(|p| obligation.starts_with(p)) { gen_blocks(&mut rep); gen_collections(&mut rep); return rep.finish("GEN_blocks"); }
+    if ["C05.generate_", "C03.generate_", "C05.member_extension", "C05.option_extension", "C02.generate_sequence_or_set_set_annotation", "C02.generate_sequence_or_set_of.", "C02.generate_sequence_or_set_assembly", "C02.generate_choice_assembly", "C02.sequence_or_set_template", "C02.choice_template", "C02.sequence_or_set_of_template", "C03.common_annotations", "C04.generate_collection_annotations", "C02.generate_collection_member_type"].iter().any(|p| obligation.starts_with(p)) { gen_blocks(&mut rep); gen_collections(&mut rep); return rep.finish("GEN_blocks"); }
     if ["C03.format_tag", "C06.width_to_tokens", "C04.format_range_annotations", "lemma.GEN_emission"].iter().any(|p| obligation.starts_with(p)) { gen_emission(&mut rep); return rep.finish("GEN_emission"); }
     if obligation.starts_with("C03.") { c03_apply_tagenv(&mut rep); return rep.finish("C03_apply_tagenv"); }
     if ["C02.link_components_of", "C05.link_components_of", "C02.has_components_of", "C05.lemma.", "C02.lemma."].iter().any(|p| obligation.starts_with(p)) { c02_components_of(&mut rep); return rep.finish("C02_components_of"); }
@@ -652,6 +652,10 @@ fn gen_collections(rep: &mut Rep) {
             let d2 = || format!("module_default={env:?} T ::= {}{} (SIZE({lo}..{hi}){}) OF BOOLEAN -> {}", if tagged { "[APPLICATION 6] EXPLICIT " } else { "" }, if is_set { "SET" } else { "SEQUENCE" }, if ext { ", ..." } else { "" }, match &got2 { Ok(t) => nows(t), Err(e) => format!("ERR {e}") });
             rep.check("C04.generate_collection_annotations.fails_only_when_the_size_annotation_fails", got2.is_ok(), d2);
             rep.check("C04.generate_collection_annotations.delegate_the_size_annotation_of_the_collections_own_constraints_and_the_assignments_own_tag", matches!(&got2, Ok(t) if nows(t).contains(&want)), d2);
+            // the whole function: the hoisted element item comes from the ELEMENT type and carries no tag (the tag belongs to the collection), the kind is kept
+            let whole = matches!(&got2, Ok(t) if { let t = nows(t); t.contains(&want) && t.find("pubstructAnonymousT(pubbool);").map_or(false, |p| t[..p].rfind("#[rasn(").map_or(false, |a| t[a..p].starts_with("#[rasn(delegate") && !t[a..p].contains("tag(") && !t[a..p].contains("size("))) && t.contains(&format!("pubstructT(pub{}<AnonymousT>);", if is_set { "SetOf" } else { "SequenceOf" })) });
+            rep.check("C02.generate_sequence_or_set_of.collection_of_its_kind_over_the_named_or_hoisted_untagged_element_with_size_and_own_tag", whole, d2);
+            rep.check("C02.generate_sequence_or_set_of.fails_only_when_a_callee_fails", got2.is_ok(), d2);
         } }
     } } }
 }
